@@ -5,6 +5,56 @@ HERE = os.path.dirname(os.path.dirname(os.path.abspath(__file__)))
 ALL = [f"C{i:02d}" for i in range(1, 21)]
 # id -> dict(category, technique, text, note, design_ref, engine)
 BUILT = {
+ "C01": dict(category="model_checking", engine="E3 stateright BFS over real RaftNode (verif_export/verif_import hook)",
+   technique="explicit-state breadth-first search (stateright) in which every transition rebuilds one real RaftNode from a snapshot and runs one real handler / production sender; depth-bounded from scripted reachable seeds",
+   text="3 (thorough also 5) real RaftNodes; actions: deliver any in-flight message, duplicate (budget), election timer, time passing at a voter, heartbeat, propose, crash/restart from (term, vote, log) (budget); loss and reordering are inherent in the message-set semantics; budgets on term/log/dup/crash are part of the state. On every state: election safety, log matching, state-machine safety, leader completeness, commit <= log length, term/commit monotonicity. BFS is complete to the stated depth from the initial state and 7 scripted seed states; pre-vote, fast-path and tie-break configurations; 'sometimes' witnesses guard against vacuity.",
+   note="Handlers are atomic; the durable image at a crash is the in-memory persistent triple (WAL fidelity is C10); after a successful pre-vote the harness broadcasts the RequestVote that the synchronous start_election() builds and discards (trusted driver glue); fixed membership.",
+   design_ref="§2 C01"),
+ "C05": dict(category="model_checking", engine="E4 replay BFS + E1 vsched on real GraphEngine",
+   technique="BFS over all operation sequences to a depth with canonical-state dedup (sequential) + stateless preemption-bounded exploration of real threads (concurrent), structural invariant and reference edge set as oracle",
+   text="S: every sequence (quick <=3, thorough <=4) of create_node/create_edge (directed, undirected, self-loop, parallel)/delete_edge/delete_node/update_* on <=3 nodes replayed on a fresh real GraphEngine; after every step all_edges/edges_of/degrees/neighbors/get_edge/node_exists must agree with the reference edge set and the structural invariant. T: 9 (thorough 12) programs of 2-3 threads creating/deleting edges and nodes on a shared hub, every schedule with <= 2 (thorough 3) preemptions, quiescent invariant + agreement with the results the calls returned.",
+   note="Interleavings at lock-acquisition granularity (every parking_lot/dashmap lock via the vendored lock_api); atomics-only races and weak memory not modelled; sizes below delete_node's rayon threshold.",
+   design_ref="§4 C05"),
+ "C11": dict(category="model_checking", engine="E1 vsched on real TensorStore",
+   technique="stateless preemption-bounded exploration of real threads (iterative context bounding, no reduction) with a brute-force linearizability oracle; WAL recovery compared with memory at quiescence",
+   text="56 (thorough more) programs of 2 threads x 2 ops / 3 threads x 1-2 ops on colliding keys of every key class (plain, emb:, node:, table:, _cache:), without and with the durable log; every schedule with <= 2 (thorough 3) preemptions runs on a fresh real store; the recorded call/return history and final state must be linearizable w.r.t. a sequential map (values never a mixture of two writes); with the WAL, recover() after quiescence must equal memory.",
+   note="Scheduling points are lock acquisitions; std atomics / UnsafeCell accesses inside one lock-free segment are not interleaved; known finding C11-F1 (multi-shard scan(\"\")) matched by signature.",
+   design_ref="§4 C11"),
+ "C06": dict(category="model_checking", engine="E4 bounded-exhaustive histories on real VectorEngine / HNSWIndex",
+   technique="exhaustive enumeration of operation histories and vector/query grids against an f64 reference (exact oracle) and an index-soundness oracle",
+   text="Read-back of every vector over 13 special f32 values (dim <=4/5) through all store APIs; every multiset of <=3 (4) grid vectors x all grid queries x k x 3 metrics through every search API, with and without a cached index; all sequences (depth 4/5) of store/overwrite/delete/batch/clear/build_and_cache_index and of collection + metadata-filter operations; direct HNSWIndex insert sequences.",
+   note="Grid {-1,0,1}^{2,3}; <=4 keys; ties within 1e-6 may appear in any order; cosine against a zero vector exempt.",
+   design_ref="§5 C06"),
+ "C07": dict(category="fault_enumeration", engine="E4 round-trip enumeration + E2 crash images of real snapshot saves",
+   technique="exhaustive enumeration of store contents x snapshot formats (round trip) and of every process-crash image of a save over an existing snapshot",
+   text="42 value kinds x 10 key classes, all 64 subsets of a 6-entry pool, key-less slabs, engine-created data (relational, graph, vector, blob), operation sequences, x 6-10 format paths: reload must observe exactly the original (vectors bit-identical below the threshold, within 1e-2 above for judged shapes). Crash half: (previous content, save fn) x (new content, save fn) x file name with the real I/O logged; every op boundary and byte-torn write image must load as exactly the previous or the new snapshot.",
+   note="Process-crash images only (quantifier: truncation of the temporary file and either side of the rename); generic dense vectors above the threshold are measured, not judged.",
+   design_ref="§5 C07, §3"),
+ "C08": dict(category="model_checking", engine="E4 replay BFS on real QueryRouter with checkpoint manager",
+   technique="BFS over statement histories with canonical-state dedup; differential oracle (read battery after ROLLBACK = battery recorded at CHECKPOINT)",
+   text="All statement histories (quick <=5, thorough <=6/7) over relational, graph and vector statements plus CHECKPOINT / ROLLBACK TO for every retained checkpoint, retention K in {1,2,3}; after every rollback the full read battery must equal the one recorded at the checkpoint, the checkpoint list must equal the reference, a write per engine must succeed, and rolling back again / to the other checkpoint must work.",
+   note="One table/label; error texts, uuids and timestamps not compared; state key is a 128-bit hash of the observation.",
+   design_ref="§5 C08"),
+ "C14": dict(category="model_checking", engine="E4 bounded-exhaustive histories on real Vault vs reference ACL",
+   technique="exhaustive enumeration of operation sequences with every (identity, secret, operation) probed after every step against a reference ACL; at-rest search of store image, audit log and errors",
+   text="All sequences (full alphabet depth 3/4, core alphabet 4/5) of set/grant/grant_with_ttl/revoke/delete/rotate/delegate/membership add-remove/clock advance/reopen by root and u1 over 2 secrets; after every step 4 requesters x 2 secrets x 9 operations are probed on replays and allow/deny compared with the reference ACL (alarm only when the vault allows without a live grant); every secret value and name used is searched in both stores, the snapshot image, audit records and error strings.",
+   note="Rate limiting/quotas off; Argon2 at minimum cost; known findings C14-F1..F3 (secret names at rest) matched by signature.",
+   design_ref="§5 C14"),
+ "C18": dict(category="model_checking", engine="E4 exhaustive small graphs on real GraphEngine vs brute-force references",
+   technique="exhaustive enumeration of small multigraphs x query grids against BFS / Bellman-Ford / walk enumeration / Floyd-Warshall / Prim / cycle-enumeration references",
+   text="All multigraphs on 2-5 nodes (bounded edges, types, weights {0,1,absent,5.0}, directed/undirected, self-loops, parallel edges): find_path, find_all_paths, find_variable_paths, traverse, neighbors, match_pattern, find_weighted_path, find_all_weighted_paths, astar (all admissible heuristics over {0,d*}), components, SCC, MST, k-core, triangles, biconnected components / bridges; divergence detected in sub-processes.",
+   note="<=5 (6 simple) nodes; small weight alphabet; engines reused along the DFS, counterexamples confirmed on fresh engines.",
+   design_ref="§5 C18"),
+ "C19": dict(category="model_checking", engine="E4 sequences + E1 vsched on real BlobStore",
+   technique="BFS over operation sequences with destructive probes on every state + stateless preemption-bounded exploration of 2-4 real threads",
+   text="S: chunk sizes x boundary sizes x all 3-way write splits; Q: BFS (depth 6/8) over put/stream/delete/gc/full_gc/repair on <=3 artifacts with shared chunks, every live artifact read back five ways after each step, single-chunk alteration/removal must be reported, drain-to-empty leaves no chunk; E1: 12 (15) scenarios of concurrent put/stream/delete/gc/full_gc, every schedule with <= 2-4 preemptions, every surviving artifact must read back.",
+   note="Known findings C19-F1/F2 (unlocked chunk refcounts; collectors vs unfinished uploads) matched by signature, histories containing the F2 pattern are tainted.",
+   design_ref="§4 C19"),
+ "C20": dict(category="model_checking", engine="E4 exhaustive codec alphabets + garbage sweeps in sub-processes",
+   technique="exhaustive enumeration of value alphabets per codec (round trip), and of all short byte strings / every truncation / every single-bit flip of valid encodings per decoder under a counting allocator",
+   text="ids (all sequences over {0,1,2,127,128,2^32,u64::MAX}, unsorted/duplicates), RLE, sparse vectors, all 30 Message variants x optional fields x codec v1/v2/LZ4 x frame limits, WAL records of all three logs, snapshot headers/containers, TT decompose/reconstruct within tolerance; 18 decoders on every byte string <=2 (3), every prefix and bit flip: Err or valid value, no panic/abort, no allocation above the declared limit.",
+   note="Multi-bit corruption and long garbage not covered; reads past the input visible only as panic/abort.",
+   design_ref="§5 C20"),
  "C02": dict(category="fault_enumeration", engine="E2 envshim I/O log + crash-image enumerator, real TensorStore::recover",
    technique="exhaustive crash-image enumeration (every I/O-op boundary, every byte-torn write, every unsynced log tail) of all short operation histories, multi-epoch, against a reference map",
    text="All sequences (quick <=3, thorough <=3 over a larger alphabet) of put_durable/delete_durable/checkpoint/sync over every key class and value kind run on a real durable TensorStore with its real file I/O logged; every crash image is recovered with the real recover() and must equal the reference after some prefix containing every acknowledged write; epochs 2-3 continue writing on the recovered store and crash again. Sync modes Immediate/Batched/Manual, with and without log rotation.",
@@ -50,7 +100,7 @@ def main():
             "guard": "--cfg neumann_verif",
             "enable": "RUSTFLAGS='--cfg neumann_verif --check-cfg cfg(neumann_verif)' via /verif/nvc/.cargo/config.toml (harness workspace depends on /repo crates by path)",
             "baseline_off_cmd": "cd /repo && cargo nextest run --workspace --no-fail-fast --tool-config-file pb:/w/lib/nextest.toml --profile pb --test-threads 8 --offline",
-            "source_commits": [],
+            "source_commits": ["8ca21929 verif hook: RaftNode::verif_export/verif_import behind cfg(neumann_verif)"],
             "add_only": True,
         },
         "engines": [
